@@ -754,6 +754,18 @@ def emit_fn(d, unit, report, canaries):
         sig, body = split_fn(src, it)
         orig_text = src[it.start:it.end]
         fname = qual
+    elif d.opt('unit') != unit:
+        # a block that is not proved in this unit: only its synthetic head is needed for the stub
+        rel, qual, fname = d.args[0], d.args[1], d.args[2]
+        heads = [t for (n, _, t) in d.sections if n == 'head']
+        if not heads:
+            raise ExtractError('block %s lacks //@head' % fname)
+        sig = '\n'.join(heads[0])
+        body = ''
+        orig_text = ''
+        class _It:  # minimal stand-in
+            name = fname
+        it = _It()
     else:  # block
         rel, qual, fname = d.args[0], d.args[1], d.args[2]
         src, it = locate(rel, 'fn', qual)
